@@ -467,7 +467,7 @@ def run(ctx):
             if res[0] != COLD[(i, ())]: report(ctx, (('s', i),), 0, res[0], COLD[(i, ())])
         lap('single_statements_in_process')
         # ---- two long histories, each inside ONE pristine process
-        order = ctx.shuffled(range(n)) if ctx.seed else list(range(n))
+        order = list(range(n))           # the same two histories for every seed (a permuted history would be another history)
         for seq in (order, order[::-1]):
             steps = [('s', i) for i in seq]
             res, tainted = zyg.run(steps)
@@ -524,6 +524,8 @@ def run(ctx):
     finally:
         zyg.close()
     ctx.count('zygote_forks', zyg.forks)
+    tm = os.times()
+    ctx.cov['cpu_seconds'] = dict(main=round(tm.user + tm.system, 1), workers_and_pristine_children=round(tm.children_user + tm.children_system, 1))
     c = ctx.counters
     ctx.cov['pool_statements'] = n
     ctx.cov['core_statements'] = len(P.CORE)
